@@ -206,3 +206,151 @@ def correspondence(ctx):
                         "ended SUCCEEDED, which outputs changed or which value table env_var records for a "
                         f"(step, variable) row; model did (log, states, changes, rows) per build: {(got[0] or '')[:1500]}",
                         witness={"case": co.case_json(project, history), "model_term": term})
+
+
+# ---------------------------------------------------------------------------------------------
+# Amended (dynamic) inputs with deferral: Engine.v Section Amend (gate = true, the code)
+# ---------------------------------------------------------------------------------------------
+
+
+def gen_amend_case(rng: random.Random):
+    """A static plan whose steps are plain steps or script steps ``./w<i>.py``; a script step amends
+    a list of files that depends on the VERSION of its script (the script is its first declared
+    input): sources or outputs of earlier steps.  History: change / delete / restore a source
+    (a deleted source blocks its consumers, whose outputs then are unavailable amended inputs:
+    deferral), switch a script to another version."""
+    nsrc = rng.randint(2, 4)
+    sources = [f"s{i}.txt" for i in range(nsrc)]
+    pid = {p: i + 1 for i, p in enumerate(sources)}
+    steps, avail = [], list(sources)
+    scripts = {}                      # path -> {version: amended list}
+    for i in range(rng.randint(2, 6)):
+        inp = sorted(rng.sample(avail, rng.randint(1, min(2, len(avail)))))
+        out = f"o{i}.txt"
+        pid[out] = 100 + len(pid)
+        if rng.random() < 0.6:
+            path = f"w{i}.py"
+            pid[path] = 100 + len(pid)
+            rest = [p for p in avail if p not in inp]
+            versions = {}
+            built = [p for p in rest if p in pid and pid[p] >= 100]      # outputs of earlier steps
+            for v in range(rng.randint(2, 3)):
+                k = rng.choice([0, 1, 1, 2]) if rest else 0
+                pool = built if built and rng.random() < 0.6 else rest
+                versions[v] = sorted(rng.sample(pool, min(k, len(pool))))
+            scripts[path] = versions
+            steps.append({"label": f"./{path}", "script": path, "id": 1000 + i, "inp": [path] + inp,
+                          "decl": inp, "out": [out]})
+        else:
+            steps.append({"label": f"t{i}", "script": None, "id": 1000 + i, "inp": inp, "decl": inp, "out": [out]})
+        avail.append(out)
+
+    def body(path, v):
+        am = scripts[path][v]
+        acts = [{"op": "print", "text": f"version {v}"}, {"op": "read", "paths": [path], "required": True}]
+        if am:
+            acts += [{"op": "amend", "inp": list(am)}, {"op": "read", "paths": list(am), "required": True}]
+        return acts + [{"op": "auto"}]
+    plan = [{"op": "static", "paths": sources + sorted(scripts)}]
+    for s in steps:
+        if s["script"]:
+            plan.append({"op": "run", "label": s["label"], "inp": s["decl"], "out": s["out"]})
+        else:
+            plan.append({"op": "step", "label": s["label"], "inp": s["decl"], "out": s["out"]})
+    cur_ver = {p: 0 for p in scripts}
+    version = {p: 0 for p in sources}
+    content_id = {}
+
+    def cid(key):
+        return content_id.setdefault(key, len(content_id) + 1)
+
+    def text(p):
+        return f"{p} version {version[p]}\n"
+    project = e3.Project(sources={p: text(p) for p in sources},
+                         program={"scripts": {"plan.py": plan, **{p: body(p, 0) for p in scripts}}, "commands": {}})
+    present = set(sources)
+
+    def world():
+        src = [(pid[p], cid(text(p))) for p in sources if p in present]
+        src += [(pid[p], cid(("script", p, cur_ver[p]))) for p in sorted(scripts)]
+        return src, []
+    history, worlds = [], [world()]
+    for _ in range(rng.randint(1, 5)):
+        edits = []
+        for _ in range(rng.randint(1, 2)):
+            kind = rng.choice(["change", "delete", "delete", "restore", "restore", "script", "script", "noop"])
+            if kind == "change":
+                p = rng.choice(sources)
+                version[p] += 1
+                present.add(p)
+                edits.append({"op": "write", "path": p, "content": text(p)})
+            elif kind == "delete" and len(present) > 1:
+                p = rng.choice(sorted(present))
+                present.discard(p)
+                edits.append({"op": "delete", "path": p})
+            elif kind == "restore":
+                gone = sorted(set(sources) - present)
+                if gone:
+                    p = rng.choice(gone)
+                    present.add(p)
+                    edits.append({"op": "write", "path": p, "content": text(p)})
+            elif kind == "script" and scripts:
+                p = rng.choice(sorted(scripts))
+                cur_ver[p] = rng.choice([v for v in scripts[p] if v != cur_ver[p]])
+                edits.append({"op": "script", "path": p, "actions": body(p, cur_ver[p])})
+        history.append({"edits": edits})
+        worlds.append(world())
+    tab = [(s["id"], cid(("script", s["script"], v)), [pid[a] for a in am])
+           for s in steps if s["script"] for v, am in scripts[s["script"]].items()]
+    return project, history, steps, pid, worlds, tab
+
+
+def correspondence_amend(ctx):
+    n = ctx.scale(12, 100)
+    checks, meta = [], []
+    for i in range(n):
+        rng = random.Random(f"c01-amend-{ctx.seed}-{ctx.tier}-{i}")
+        project, history, steps, pid, worlds, tab = gen_amend_case(rng)
+        results = e3.run_history(project, history, timeout=40)
+        labels = {s["label"]: s["id"] for s in steps}
+        phases = []
+        ran_any = deferred_any = kept_any = False
+        for k, res in enumerate(results):
+            ran = {c["label"] for c in res.commands if c["label"] in labels}
+            skipped = {e[1] for e in res.events if e[0] == "SKIP" and e[1] in labels}
+            nodes = res.nodes()
+            states = {l: (nodes.get("step:" + l, {"props": {}})["props"].get("state") or ["?"])[0] for l in labels}
+            ran_any |= bool(ran) and k > 0
+            deferred_any |= any(states[l] != "SUCCEEDED" for l in ran)
+            kept_any |= k > 0 and len(ran) < len(labels)
+            log = [f"({labels[l]}, true)" for l in sorted(ran)] + [f"({labels[l]}, false)" for l in sorted(skipped - ran)]
+            est = [f"({labels[l]}, {common.coq_bool(states[l] == 'SUCCEEDED')})" for l in sorted(labels)]
+            src, env = worlds[k]
+            prev = results[k - 1].files if k > 0 else {}
+            outs = sorted(p for s in steps for p in s["out"])
+            chg = [f"({pid[p]}, {common.coq_bool(res.files.get(p) != prev.get(p))})" for p in outs]
+            phases.append(f"({common.coq_list([f'({a}, {b})' for a, b in src])}, [], "
+                          f"{common.coq_list(log)}, {common.coq_list(est)}, {common.coq_list(chg)})")
+            ctx.count("amend_builds")
+            ctx.count("amend_deferred_runs", sum(1 for l in ran if states[l] != "SUCCEEDED"))
+        proj = common.coq_list([
+            f"mkStep {s['id']} {common.coq_list([str(pid[p]) for p in s['inp']])} [] "
+            f"{common.coq_list([str(pid[p]) for p in s['out']])}" for s in steps])
+        tabt = common.coq_list([f"({a}, {b}, {common.coq_list([str(x) for x in c])})" for a, b, c in tab])
+        term = f"let proj := {proj} in check_hist_a {tabt} proj empty_asys {common.coq_list(phases)}"
+        checks.append(term)
+        meta.append((project, history, term))
+        ctx.case(("engine-amend", i, term), nontrivial=ran_any and kept_any)
+        if deferred_any:
+            ctx.count("amend_histories_with_deferral")
+    bad = common.run_cases(ctx, "amend", HEADER, checks, chunk=10)
+    ctx.traces_validated += len(checks) - len(bad)
+    for b in bad[:3]:
+        project, history, term = meta[b]
+        t2 = term.replace("check_hist_a", "trace_hist_a")
+        got = common.eval_terms(ctx, "amenddiag", HEADER, [t2])
+        ctx.add_failure("correspondence", "E3:Engine:amend", "E3:Engine:amended-inputs-executed-or-skipped-set",
+                        "model/Engine.v (Section Amend, gating as in the code) and the real system disagree on "
+                        "which steps ran (or ran and deferred), were skipped, ended SUCCEEDED or which outputs "
+                        f"changed; model did (log, states, changes) per build: {(got[0] or '')[:1500]}",
+                        witness={"case": co.case_json(project, history), "model_term": term})
